@@ -1988,6 +1988,17 @@ class unyt_array(np.ndarray):
                     "Quantities with units of Fahrenheit or Celsius "
                     "cannot be multiplied, divided, subtracted or added."
                 )
+            if (
+                ufunc is floor_divide
+                and u0 is not u1
+                and u0 != u1
+                and not u0.is_dimensionless
+                and u0.same_dimensions_as(u1)
+            ):
+                # floor(a/b) is not scale covariant: bring b to a's units first
+                conv, _ = u1.get_conversion_factor(u0, inp1.dtype)
+                inp1 = np.asarray(inp1, dtype=np.result_type(inp1.dtype, np.float16)) * conv
+                u1 = u0
             # get the unit of the result
             mul, unit = unit_operator(u0, u1)
             # actually evaluate the ufunc
